@@ -15,6 +15,7 @@ import ArvVerif.Base.Loop
 import ArvVerif.Model.C04
 import ArvVerif.Model.C04_Race
 import ArvVerif.Model.C04_Compose
+import ArvVerif.Model.C04_Queue
 open ArvVerif ArvVerif.C04
 
 namespace C04Drv
@@ -77,6 +78,40 @@ def storedMtime (s : St) (vi hi : Nat) : Nat :=
   | some v => match v.blocks hi with | some f => f.mtime | none => 0
   | none => 0
 
+/-- one trash-list entry `<h> <mref> <mount>`; the mtime reference is resolved like the Go driver does: from
+the file as it is just before the request -/
+def parseItem (s : St) (h mref mount : String) : Option Queue.Item :=
+  match parseHash h with
+  | none => none
+  | some hi =>
+    let plus := mref.endsWith "+"
+    let m := if plus then (mref.dropEnd 1).toString else mref
+    let req : Option Nat :=
+      if m = "v0" ∨ m = "v1" then
+        let st := storedMtime s (if m = "v0" then 0 else 1) hi
+        some (if plus ∧ st ≠ 0 then st + U / 2 else st)
+      else if m.startsWith "a" then (m.drop 1).toString.toNat?.map (fun k => s.now - U * k - U / 2)
+      else none
+    let mnt : Option (Option Nat) :=
+      if mount = "-" then some none else if mount = "0" then some (some 0)
+      else if mount = "1" then some (some 1) else if mount = "x" then some (some 99) else none
+    match req, mnt with
+    | some r, some mt => some { hash := hi, mtime := r, mount := mt }
+    | _, _ => none
+
+/-- `tl:<h>/<mref>/<mount>&...`: one PUT /trash with several entries -/
+def parseList (s : St) (arg : String) : Option (List Queue.Item) :=
+  (arg.splitOn "&").mapM fun it =>
+    match it.splitOn "/" with
+    | [h, mref, mount] => parseItem s h mref mount
+    | _ => none
+
+/-- a submitted trash list goes through the work queue and ONE trash worker (`Model/C04_Queue.lean`):
+ReplaceQueue, then take + TrashItem + done for each entry in order, all before the next request -/
+def runTrashList (c : Cfg) (s : St) (items : List Queue.Item) : St :=
+  (Queue.srun c s { todo := [], busy := [] }
+    (Queue.Ev.putTrash items :: items.flatMap (fun _ => [Queue.Ev.take, Queue.Ev.exec 0]))).1
+
 /-- parse one op against the current state (the `ti` mtime reference is resolved like the Go driver
 does: from the file as it is just before the request) -/
 def parseOp (s : St) (op : String) : Option (Op × Bool) :=
@@ -97,24 +132,7 @@ def parseOp (s : St) (op : String) : Option (Op × Bool) :=
       else if k = "untrash" then some (.untrash hi, true)
       else if k = "uuntrash" then some (.unauth 1, true)
       else none
-  | ["ti", h, mref, mount] =>
-    match parseHash h with
-    | none => none
-    | some hi =>
-      let plus := mref.endsWith "+"
-      let m := if plus then (mref.dropEnd 1).toString else mref
-      let req : Option Nat :=
-        if m = "v0" ∨ m = "v1" then
-          let st := storedMtime s (if m = "v0" then 0 else 1) hi
-          some (if plus ∧ st ≠ 0 then st + U / 2 else st)
-        else if m.startsWith "a" then (m.drop 1).toString.toNat?.map (fun k => s.now - U * k - U / 2)
-        else none
-      let mnt : Option (Option Nat) :=
-        if mount = "-" then some none else if mount = "0" then some (some 0)
-        else if mount = "1" then some (some 1) else if mount = "x" then some (some 99) else none
-      match req, mnt with
-      | some r, some mt => some (.trashItem hi r mt, true)
-      | _, _ => none
+  | ["ti", h, mref, mount] => (parseItem s h mref mount).map fun x => (x.op, true)
   | _ => none
 
 def showRes : Res → String
@@ -160,13 +178,23 @@ partial def runOps (c : Cfg) (s : St) (ops : List String) (acc snaps : List Stri
   match ops with
   | [] => some (acc.reverse, snaps.reverse)
   | o :: rest =>
+    match o.splitOn ":" with
+    | ["tl", arg] =>
+      match parseList s arg with
+      | none => none
+      | some items =>
+        let s1 := runTrashList c s items
+        let s2 := (step c s1 (.tick U)).1
+        runOps c s2 rest ("200" :: acc) (listing s1 :: snaps)
+    | _ =>
     match parseOp s o with
     | none => none
     | some (op, auto) =>
       let s := prestamp c s o
-      let (s1, r) := step c s op
-      -- `ti` goes through PUT /trash, which always answers 200
-      let shown := match op with | .trashItem .. => "200" | _ => showRes r
+      -- `ti` goes through PUT /trash (which always answers 200), the work queue and the trash worker
+      let (s1, shown) := match op with
+        | .trashItem h m mt => (runTrashList c s [{ hash := h, mtime := m, mount := mt }], "200")
+        | _ => let (s1, r) := step c s op; (s1, showRes r)
       let s2 := if auto then (step c s1 (.tick U)).1 else s1
       runOps c s2 rest (shown :: acc) (listing s1 :: snaps)
 
